@@ -303,14 +303,9 @@ theorem invC_show (c : Core) (h : InvC c) (t : Name) :
 
 theorem copySheet_core (s s' : St) (f t : Int) (h : copySheet s f t = .ok s') : core s' = core s := by
   unfold copySheet at h
-  split at h
-  · cases h
-  · dsimp only at h
-    split at h
-    · cases h
-    · split at h
-      · cases h
-      · cases h; rfl
+  dsimp only at h
+  repeat' split at h
+  all_goals first | (cases h; rfl) | cases h
 
 theorem groupSheets_core (s s' : St) (ns : List Name) (h : groupSheets s ns = .ok s') : core s' = core s := by
   unfold groupSheets at h
